@@ -127,6 +127,17 @@ def check_jitter(ctx, drv, rng, td):
         annotate(random.Random(len(rows)), rows)
         ctx.sit("traces_with_extra_columns")
     delta = rng.choice([0.0, 0.0, 0.001, 0.5, 1.0 / tps, 3.0, 100.0])
+    if rng.random() < 0.3:
+        # nanosecond-resolution stamps (or a trace the tool itself has jittered before) and shifts far below a microsecond: what is written must
+        # still be the arrival plus an amount in [0, delta], not that value rounded to some coarser grid
+        off = 0
+        for r in rows:
+            if r["arrival_seconds"]:
+                off += rng.randint(1, 999)
+                r["arrival_seconds"] = dec(F(r["arrival_seconds"]) + F(off, 10 ** 9))
+        arrivals = [r["arrival_seconds"] for r in rows if r["arrival_seconds"]]
+        delta = rng.choice([0.0, 3e-7, 2.5e-8, delta])
+        ctx.sit("jitter_nanosecond_stamps" + ("_delta_zero" if delta == 0 else "_tiny_delta" if delta < 1e-6 else ""))
     seed = rng.randint(0, 10 ** 6)
     fin, f1, f2, f3 = (os.path.join(td, x) for x in ("in.csv", "j1.csv", "j2.csv", "j3.csv"))
     write_csv(fin, rows)
